@@ -1,6 +1,6 @@
 (* C19 — Enum values survive conversion to text and back.  Statements only. *)
 From Coq Require Import ZArith.
-From GM Require Import Bytes Result Layout Enum EnumProofs Tables Enums TableEnums.
+From GM Require Import Bytes Result Layout Enum EnumProofs Tables Enums TableEnums BitmaskProofs TableBitmask.
 Open Scope list_scope.
 
 (* strconv.Atoi (strconv.Itoa z) = z on the whole int64 range *)
@@ -27,6 +27,25 @@ Print Assumptions C19_all_plain_enums_ok.
 Theorem C19_bitmask_failures_are_known : forallb known_failure (bitmask_failures enums) = true.
 Proof. exact bitmask_failures_are_known. Qed.
 Print Assumptions C19_bitmask_failures_are_known.
+
+(* bitmask enums, generically: zero and EVERY non-zero value all of whose set bits are usable flags
+   (a name without blanks that maps back to the flag) below the loop bound — i.e. every
+   combination of defined single-bit flags — is rendered as the names joined by " | " and parsed
+   back to itself *)
+Theorem C19_bitmask_roundtrip : forall en e, en_bitmask en = true -> e <> 0%N ->
+  (forall j, N.testbit e j = true -> (j < N.of_nat (en_bound en))%N) ->
+  Forall (flag_ok en) (set_bits (en_bound en) e) ->
+  unmarshal_text en (marshal_text en e) = Some e.
+Proof. exact bitmask_roundtrip. Qed.
+Print Assumptions C19_bitmask_roundtrip.
+
+(* every shipped bitmask enum (regenerated table), every 64-bit combination of its named
+   single-bit flags, zero included *)
+Theorem C19_shipped_bitmask_combinations : forall g e, In g enums -> ge_bitmask g = true -> (e < 2 ^ 64)%N ->
+  (forall j, N.testbit e j = true -> lookup_label (en_labels (to_enum g)) (N.shiftl 1 j) <> None) ->
+  unmarshal_text (to_enum g) (marshal_text (to_enum g) e) = Some e.
+Proof. exact shipped_bitmask_combinations. Qed.
+Print Assumptions C19_shipped_bitmask_combinations.
 
 (* parsing rejects text that is neither a known name nor a number *)
 Theorem C19_parse_rejects : forall en s, lookup_value (en_values en) s = None -> atoi s = None -> parse_label en s = None.
